@@ -14,14 +14,14 @@ thread_local! {
     static TAG: Cell<(u64, u32)> = const { Cell::new((u64::MAX, 0)) };
 }
 
-/// (network id, node index) -> marker -> count
-static SINK: Mutex<Option<HashMap<(u64, u32), HashMap<&'static str, u32>>>> = Mutex::new(None);
+/// (network id, node index) -> marker -> the log lines (fields as text)
+static SINK: Mutex<Option<HashMap<(u64, u32), HashMap<&'static str, Vec<String>>>>> = Mutex::new(None);
 
 pub fn tag_thread(net: u64, node: u32) {
     TAG.with(|t| t.set((net, node)));
 }
 
-pub fn take(net: u64) -> HashMap<u32, HashMap<&'static str, u32>> {
+pub fn take(net: u64) -> HashMap<u32, HashMap<&'static str, Vec<String>>> {
     let mut g = SINK.lock().unwrap();
     let mut out = HashMap::new();
     if let Some(m) = g.as_mut() {
@@ -91,7 +91,12 @@ impl Subscriber for Cap {
                     name
                 };
                 let mut g = SINK.lock().unwrap();
-                *g.get_or_insert_with(HashMap::new).entry((net, node)).or_default().entry(name).or_insert(0) += 1;
+                let v2 = g.get_or_insert_with(HashMap::new).entry((net, node)).or_default().entry(name).or_default();
+                if v2.len() < 64 {
+                    let mut line = v.0.clone();
+                    line.truncate(3000);
+                    v2.push(line);
+                }
                 break;
             }
         }
